@@ -405,9 +405,9 @@ type regIn struct {
 	Val string // value id for set
 }
 type regOut struct {
-	Val    string // value id read ("" absent)
-	Absent bool
-	Err    bool
+	Val     string // value id read ("" absent)
+	Absent  bool
+	Err     bool
 	Garbage bool
 }
 
